@@ -11,6 +11,7 @@ def plan(tier, seed):
     envc = dict(VERIF_CATS=1)
     jobs = [ch("C04", F, "h_cat_stats", t, wc_lattice.FUN, env=envc),
             ch("C04", F, "h_cat_stats_rest", t, wc_lattice.FUN, env=envc),
+            ch("C04", F, "h_cat_stats_ordered", t, wc_lattice.FUN, env=envc),
             ch("C04", F, "h_cat_stats_nulls", t, wc_lattice.FUN, env=envc)]
     jobs.append(ch("C04", "vf/pyshim/h_convert.py", "h_convert_intlike", t,
                    ["converted_types.convert (integer-like converted types; decoded statistics)"]))
